@@ -127,22 +127,24 @@ class Scen(CompScenario):
         self.expect(not a_done or a_en, "ran-when-not-requested", "alloc done without request", port="alloc")
         self.expect(not f_done or f_en, "ran-when-not-requested", "free done without request", port="free")
         self.expect(not c_done or c_en, "ran-when-not-requested", "clear done without request", port="clear")
-        # "would overflow": judged when the call does not fit even counting what a free (alloc) executed in the
-        # same cycle gives back (takes); a call that fits only thanks to the other call of the cycle is counted
+        # "would overflow / underflow" is judged against the state at the beginning of the cycle, as the documentation
+        # of alloc / free defines a valid count ("must be less or equal to the number of available free identifiers" /
+        # "... of allocated identifiers", allocated = the registered count) and as free is specified to return
+        # *allocated* identifiers: a free(count) that fits only thanks to an alloc executed in the same cycle hands
+        # back identifiers nobody held yet (seeded change C27-5), an alloc that fits only thanks to a same-cycle free
+        # hands out identifiers that are still held in this cycle.  The cases are counted separately as probes.
         if a_en and not a_fits:
-            if a_cnt > space + (f_cnt if f_done else 0):
-                self.expect(not obs["alloc.runnable"] and not a_done, "overflow-accepted",
-                            f"alloc(count={a_cnt}) accepted with {cnt}/{n} allocated"
-                            + (f" and free(count={f_cnt}) executed" if f_done else ""), port="alloc")
-            elif obs["alloc.runnable"] or a_done:
-                self.hit("alloc_accepted_fitting_only_with_same_cycle_free")
+            if a_cnt <= space + (f_cnt if f_done else 0):
+                self.hit("alloc_requested_fitting_only_with_same_cycle_free")
+            self.expect(not obs["alloc.runnable"] and not a_done, "overflow-accepted",
+                        f"alloc(count={a_cnt}) accepted with {cnt}/{n} allocated"
+                        + (f" and free(count={f_cnt}) executed" if f_done else ""), port="alloc")
         if f_en and not f_fits:
-            if f_cnt > cnt + (a_cnt if a_done else 0):
-                self.expect(not obs["free.runnable"] and not f_done, "underflow-accepted",
-                            f"free(count={f_cnt}) accepted with {cnt}/{n} allocated"
-                            + (f" and alloc(count={a_cnt}) executed" if a_done else ""), port="free")
-            elif obs["free.runnable"] or f_done:
-                self.hit("free_accepted_fitting_only_with_same_cycle_alloc")
+            if f_cnt <= cnt + (a_cnt if a_done else 0):
+                self.hit("free_requested_fitting_only_with_same_cycle_alloc")
+            self.expect(not obs["free.runnable"] and not f_done, "underflow-accepted",
+                        f"free(count={f_cnt}) accepted with {cnt}/{n} allocated"
+                        + (f" and alloc(count={a_cnt}) executed" if a_done else ""), port="free")
         # the statement only forbids accepting calls that would overflow / underflow; a fitting call that is
         # refused is counted, not judged
         if a_en and a_ok and not obs["alloc.runnable"]:
@@ -270,6 +272,7 @@ class Prop(PropBase):
             "executed at allocated in {0, 1, entries-1, entries}, or crossing the modulo boundary, or clear ran")
     expected_cov = ["alloc_refused_overflow", "alloc_refused_full", "free_refused_underflow", "free_refused_empty",
                     "alloc_exact_fit", "free_exact_all", "alloc_and_free_same_cycle", "alloc_and_free_both_exact",
+                    "free_requested_fitting_only_with_same_cycle_alloc", "alloc_requested_fitting_only_with_same_cycle_free",
                     "alloc_zero", "alloc_multi_across_wrap", "alloc_ends_at_wrap", "free_multi_across_wrap",
                     "free_ends_at_wrap", "clear_with_alloc", "clear_with_free", "clear_at_full", "wrap_non_power_of_two",
                     "no_validation_run", "constructor_defaults_run", "new_end_idx_judged", "new_end_idx_wrapped",
@@ -282,8 +285,8 @@ class Prop(PropBase):
     stubs = ["cycle driver (stimulus)", "ring reference model (start, end, count)"]
     assumptions = ["alloc / free return identifiers relative to the ring state at the beginning of the cycle; of the calls executed "
                    "in one cycle clear is applied last",
-                   "'would overflow / underflow' is judged for calls that do not fit even counting a free / alloc executed in "
-                   "the same cycle; the start_idx / end_idx signals are not judged (ring order is judged on returned identifiers)",
+                   "'would overflow / underflow' is judged against the allocated count at the beginning of the cycle (the documented "
+                   "bound on count), also when an alloc / free executed in the same cycle would make up the difference; the start_idx / end_idx signals are not judged (ring order is judged on returned identifiers)",
                    "the returned new_end_idx / new_start_idx are judged as the method docstrings define them (first identifier "
                    "after the last allocated / freed one) for calls with count > 0; at count 0 they are only counted",
                    "without validation (with_validate_arguments=False) only counts that fit at the beginning of the cycle are "
